@@ -6,6 +6,8 @@
   values (or maps the J -> kWh conversion over them), so they hold for every value list.
 -/
 import Ladybug.Proofs.C19Lemmas
+import Ladybug.Proofs.C19Struct
+import Ladybug.Proofs.C19Time
 
 namespace Sql
 
@@ -53,30 +55,13 @@ example : partition (interleave [[1, 2, 3], [7, 8, 9]]) 2 = .ok [[1, 2, 3], [7, 
 
 /-! ### Several run periods (`_partition_timeseries_chunks`) -/
 
-/-- The rows of run period `j` inside the time-ordered stream of `n` keys, when the periods have
-    `cs[0], cs[1], …` time steps. -/
-def periodSlice (data : List α) (cs : List Nat) (n j : Nat) : List α :=
-  (data.drop (cumBefore cs j * n)).take (cs.getD j 0 * n)
-
 /-- For periods of `c₀ … c_m` time steps and `n` keys (stream length `n · Σ cᵢ`), the chunked
     partition is, period after period, the plain de-interleaving of that period's rows. -/
 theorem C19_chunks (data : List α) (cs : List Nat) (n : Nat) (hn : 0 < n) (hs : 0 < cs.sum)
     (hl : data.length = n * cs.sum) :
     partitionChunks data cs =
-      .ok ((List.range cs.length).flatMap fun j => zipStar (chunksOf n (periodSlice data cs n j))) := by
-  have hdiv : data.length / cs.sum = n := by rw [hl, Nat.mul_div_cancel _ hs]
-  simp only [partitionChunks, Nat.ne_of_gt hs, if_false, hdiv, Nat.ne_of_gt hn]
-  congr 1
-  simp only [List.flatMap_def]
-  congr 1
-  apply List.map_congr_left
-  intro j hj
-  have hj' : j < cs.length := List.mem_range.mp hj
-  have hle := cumBefore_add_le cs j hj'
-  have : cumBefore cs j * n + cs.getD j 0 * n ≤ data.length := by
-    rw [hl, ← Nat.add_mul, Nat.mul_comm n]; exact Nat.mul_le_mul_right n hle
-  rw [chunkRows_eq data n _ _ hn this]
-  rfl
+      .ok ((List.range cs.length).flatMap fun j => zipStar (chunksOf n (periodSlice data cs n j))) :=
+  partitionChunks_eq_slices data cs n hn hs hl
 
 /-- Asking for one run period gives the corresponding slice of asking for all: de-interleaving the rows
     of period `j` alone yields exactly the `j`-th group of `n` lists of the chunked partition. -/
@@ -127,18 +112,8 @@ example : partitionChunks [1, 2, 3, 4, 5, 6, 7, 8, 9, 10] [2, 3] = .ok [[1, 3], 
 /-- On rows that are already in time order (EnergyPlus writes them so) `ORDER BY TimeIndex` changes
     nothing: the model's stable sort is the identity. -/
 theorem C19_order_by_sorted (l : List (DataRow α)) (h : l.Pairwise fun a b => a.time ≤ b.time) :
-    sortByTime l = l := by
-  induction l with
-  | nil => rfl
-  | cons x xs ih =>
-    have hx := List.pairwise_cons.mp h
-    simp only [sortByTime, List.foldr_cons] at ih ⊢
-    rw [ih hx.2]
-    cases xs with
-    | nil => rfl
-    | cons y ys =>
-      have : x.time ≤ y.time := hx.1 y (by simp)
-      simp [insertByTime, this]
+    sortByTime l = l :=
+  sortByTime_sorted l h
 
 /-! ### Joules to kWh, other units untouched -/
 
@@ -362,5 +337,320 @@ theorem C19_mixed_time_table_counterexample :
     (match queryAll (· / 3600000) db (.single "E") with
      | .error e => some e
      | .ok _ => none) = some .value := by decide +kernel
+
+/-! ### End to end: a structured EnergyPlus database through the whole query
+
+  `EPlusData db q blocks v`: the `ReportData` rows of the keys the query selects are, in rowid order,
+  the stream EnergyPlus writes – time-major over the time indices `blocks[0] ++ blocks[1] ++ …` (one
+  block per run period, indices non-decreasing), and inside one time index one row per selected key in
+  dictionary-index order; `v t d` is the value of key `d` at time index `t`.  (`headerRows` already
+  keeps only the dictionary rows of the first reporting frequency of the requested name(s).) -/
+
+structure EPlusData (db : DB α) (q : NameQuery) (blocks : List (List Nat)) (v : Nat → Nat → α) : Prop where
+  hdr_ne : headerRows db.dict q ≠ []
+  rows : db.data.filter (fun r => ((headerRows db.dict q).map (·.idx)).contains r.dict) =
+    epRows blocks.flatten ((headerRows db.dict q).map (·.idx)) v
+  sorted : blocks.flatten.Pairwise (· ≤ ·)
+  blocks_ne : blocks ≠ []
+  block_ne : ∀ b ∈ blocks, b ≠ []
+
+/-- Data stage: `ORDER BY TimeIndex` returns the EnergyPlus stream itself. -/
+theorem C19_select_structured (db : DB α) (q : NameQuery) (blocks : List (List Nat)) (v : Nat → Nat → α)
+    (h : EPlusData db q blocks v) :
+    selectData db.data ((headerRows db.dict q).map (·.idx)) =
+      epRows blocks.flatten ((headerRows db.dict q).map (·.idx)) v := by
+  unfold selectData
+  rw [h.rows]
+  exact sortByTime_sorted _ (epRows_sorted _ _ _ h.sorted)
+
+/-- **Several run periods.**  For a structured database with `n` keys and `m` run periods (time indices
+    `blocks[j]`), whose `Time` table is the concatenation `tb` of the environments' rows, `queryAll`
+    returns exactly, period after period and key after key (dictionary order), the collection that holds
+    that key's values of that period in time order – converted iff the key's own unit is `J`/`kWh` –
+    labelled with the key, with the key's own data type and unit, under the analysis period `ps[j]` of the
+    environment, in the class of the frequency.
+    Hypotheses on the time table: the first/last rows of the data give `(p0, freq)` with different
+    environments (`C19_period_from_time_table`), `ps` are the periods of the environments' first/last
+    rows (`blockPeriods`, equal to `_extract_run_period` per environment by
+    `C19_all_run_periods_eq_extract`), and every period fits the number of its time steps (`okPeriod`:
+    what EnergyPlus guarantees, cf. `C19_period_len`). -/
+theorem C19_end_to_end (conv : α → α) (db : DB α) (q : NameQuery) (blocks : List (List Nat))
+    (v : Nat → Nat → α) (tb : List (List TimeRow)) (t0 t1 : Nat) (p0 : Period) (freq : Freq) (ps : List Period)
+    (hD : EPlusData db q blocks v)
+    (h0 : blocks.flatten.head? = some t0) (h1 : blocks.flatten.getLast? = some t1)
+    (hrp : extractRunPeriod db.time t0 t1 = .ok (some p0, freq, true)) (hfr : freq ≠ .annual)
+    (htime : db.time = tb.flatten) (htb : blockedFrom none tb) (htbne : tb ≠ []) (hts : p0.timestep ≠ 0)
+    (hps : blockPeriods (freq == .monthly) p0.timestep p0.leap tb = .ok ps)
+    (hlen : ps.length = blocks.length)
+    (hok : ∀ pb ∈ ps.zip blocks, okPeriod freq pb.1 pb.2.length) :
+    queryAll conv db q = .ok (.colls ((ps.zip blocks).flatMap fun pb =>
+      (headerRows db.dict q).map (expectedColl conv q.surface freq pb.1 pb.2 v))) := by
+  have hsel := C19_select_structured db q blocks v hD
+  have hidx : (headerRows db.dict q).map (·.idx) ≠ [] := by simpa using hD.hdr_ne
+  have hspan := timeSpan_epRows blocks.flatten _ v t0 t1 hidx h0 h1
+  have hper : periodsOf db.time t0 t1 = .ok (freq, .inl ps) := by
+    simp only [periodsOf, hrp, bind, Except.bind]
+    rw [htime, allRunPeriods_blocks _ _ _ tb htbne hts htb, hps]
+    rfl
+  have hasm := assemble_periods conv (headerRows db.dict q) q.surface freq ps blocks v hD.hdr_ne hfr hlen
+    hD.blocks_ne hD.block_ne hok
+  unfold queryAll
+  obtain ⟨r0, rs, hhd⟩ := List.exists_cons_of_ne_nil hD.hdr_ne
+  rw [hhd] at hsel hspan hasm ⊢
+  simp only [hsel, hspan, hper, bind, Except.bind, hasm]
+
+/-- **One run period.**  The same for a database whose data lies in one environment: one collection per
+    key, in dictionary order, under the period the first/last `Time` rows give. -/
+theorem C19_end_to_end_single (conv : α → α) (db : DB α) (q : NameQuery) (ts : List Nat)
+    (v : Nat → Nat → α) (t0 t1 : Nat) (p : Period) (freq : Freq)
+    (hD : EPlusData db q [ts] v)
+    (h0 : ts.head? = some t0) (h1 : ts.getLast? = some t1)
+    (hrp : extractRunPeriod db.time t0 t1 = .ok (some p, freq, false)) (hfr : freq ≠ .annual)
+    (hok : okPeriod freq p ts.length) :
+    queryAll conv db q = .ok (.colls ((headerRows db.dict q).map (expectedColl conv q.surface freq p ts v))) := by
+  have hsel := C19_select_structured db q [ts] v hD
+  simp only [List.flatten_cons, List.flatten_nil, List.append_nil] at hsel
+  have hidx : (headerRows db.dict q).map (·.idx) ≠ [] := by simpa using hD.hdr_ne
+  have hts : ts ≠ [] := hD.block_ne ts (by simp)
+  have hspan := timeSpan_epRows ts _ v t0 t1 hidx h0 h1
+  have hper : periodsOf db.time t0 t1 = .ok (freq, .inr (some p)) := by
+    simp only [periodsOf, hrp, bind, Except.bind]
+    rfl
+  have hasm := assemble_single conv (headerRows db.dict q) q.surface freq p ts v hD.hdr_ne hfr hts hok
+  unfold queryAll
+  obtain ⟨r0, rs, hhd⟩ := List.exists_cons_of_ne_nil hD.hdr_ne
+  rw [hhd] at hsel hspan hasm ⊢
+  simp only [hsel, hspan, hper, bind, Except.bind, hasm]
+
+/-- **Annual / run-period frequency, any number of environments.**  One value per time index (EnergyPlus
+    writes one per run period) and key, in time order then dictionary order, converted iff the key's own
+    unit is `J`/`kWh`. -/
+theorem C19_annual_all_environments (conv : α → α) (db : DB α) (q : NameQuery) (blocks : List (List Nat))
+    (v : Nat → Nat → α) (t0 t1 : Nat) (mult : Bool)
+    (hD : EPlusData db q blocks v)
+    (h0 : blocks.flatten.head? = some t0) (h1 : blocks.flatten.getLast? = some t1)
+    (hrp : extractRunPeriod db.time t0 t1 = .ok (none, .annual, mult)) :
+    queryAll conv db q = .ok (.annual (blocks.flatten.flatMap fun t =>
+      (headerRows db.dict q).map fun r => keyValue conv v r t)) := by
+  have hsel := C19_select_structured db q blocks v hD
+  have hidx : (headerRows db.dict q).map (·.idx) ≠ [] := by simpa using hD.hdr_ne
+  have hspan := timeSpan_epRows blocks.flatten _ v t0 t1 hidx h0 h1
+  have hflat : blocks.flatten ≠ [] := by
+    intro e; rw [e] at h0; simp at h0
+  have hper : periodsOf db.time t0 t1 = .ok (.annual, .inr none) := by
+    simp only [periodsOf, hrp, bind, Except.bind]
+    cases mult <;> rfl
+  have hasm := assemble_annual conv (headerRows db.dict q) q.surface none blocks.flatten v hD.hdr_ne hflat
+  unfold queryAll
+  obtain ⟨r0, rs, hhd⟩ := List.exists_cons_of_ne_nil hD.hdr_ne
+  rw [hhd] at hsel hspan hasm ⊢
+  simp only [hsel, hspan, hper, bind, Except.bind, hasm]
+
+/-- **The run-period query.**  For the environment `env` whose rows of the output's keys are the
+    EnergyPlus stream over the time indices `ts` (all keys of the one output name carrying the same unit),
+    `queryRunPeriod` returns one collection per key: that key's values in time order (converted iff the
+    unit is `J`/`kWh`), labelled with the key, under the period of the first/last `Time` rows. -/
+theorem C19_end_to_end_run_period (conv : α → α) (db : DB α) (name : String) (env : Nat) (ts : List Nat)
+    (v : Nat → Nat → α) (t0 t1 : Nat) (p : Period) (freq : Freq) (m : Bool)
+    (hne : headerRows db.dict (.single name) ≠ [])
+    (hrows : selectDataEnv db ((headerRows db.dict (.single name)).map (·.idx)) env =
+      epRows ts ((headerRows db.dict (.single name)).map (·.idx)) v)
+    (h0 : ts.head? = some t0) (h1 : ts.getLast? = some t1)
+    (hrp : extractRunPeriod db.time t0 t1 = .ok (some p, freq, m)) (hfr : freq ≠ .annual)
+    (hok : okPeriod freq p ts.length)
+    (hu : ∀ r ∈ headerRows db.dict (.single name), ∀ r' ∈ headerRows db.dict (.single name),
+      typeUnitOf r = typeUnitOf r') :
+    queryRunPeriod conv db name env = .ok (.colls ((headerRows db.dict (.single name)).map
+      (expectedColl conv (hasSurface name) freq p ts v))) := by
+  have hidx : (headerRows db.dict (.single name)).map (·.idx) ≠ [] := by simpa using hne
+  have hts : ts ≠ [] := by intro e; rw [e] at h0; simp at h0
+  have hspan := timeSpan_epRows ts _ v t0 t1 hidx h0 h1
+  unfold queryRunPeriod
+  obtain ⟨r0, rs, hhd⟩ := List.exists_cons_of_ne_nil hne
+  have hasm := assembleRP_single conv (headerRows db.dict (.single name)) r0 (hasSurface name) freq p ts v hne hfr
+    hts hok (fun r hr => hu r hr r0 (by rw [hhd]; simp))
+  rw [hhd] at hrows hspan hasm
+  simp only [hhd, hrows, hspan, hrp, bind, Except.bind, NameQuery.surface, hasm]
+
+/-- **One run period = the slice of all, at collection level.**  The `j`-th group of `n` collections of the
+    `queryAll` result (`C19_end_to_end`) is the list `queryRunPeriod` returns (`C19_end_to_end_run_period`)
+    for the environment with time indices `blocks[j]` and period `ps[j]`. -/
+theorem C19_one_vs_all_collections (conv : α → α) (surface : Bool) (freq : Freq) (hdr : List DictRow)
+    (ps : List Period) (blocks : List (List Nat)) (v : Nat → Nat → α) (hlen : ps.length = blocks.length)
+    (j : Nat) (hj : j < blocks.length) :
+    (((ps.zip blocks).flatMap fun pb => hdr.map (expectedColl conv surface freq pb.1 pb.2 v)).drop
+        (j * hdr.length)).take hdr.length =
+      hdr.map (expectedColl conv surface freq (ps[j]'(by omega)) (blocks[j]) v) := by
+  rw [List.flatMap_def]
+  have hrect : ∀ r ∈ (ps.zip blocks).map (fun pb => hdr.map (expectedColl conv surface freq pb.1 pb.2 v)),
+      r.length = hdr.length := by
+    intro r hr
+    simp only [List.mem_map] at hr
+    obtain ⟨pb, _, rfl⟩ := hr
+    simp
+  have hjz : j < ((ps.zip blocks).map fun pb => hdr.map (expectedColl conv surface freq pb.1 pb.2 v)).length := by
+    simp [List.length_zip]; omega
+  rw [flatten_drop_take hdr.length _ hrect j hjz]
+  simp [List.getElem_map, List.getElem_zip]
+
+/-! ### Frequency → collection class and timestep -/
+
+/-- What the first `Time` row of the data says, over the whole frequency enumeration: interval types
+    ≤ 1 give `steps (60 / Interval)` with that timestep (1 ≤ Interval ≤ 60), type 2 daily, type 3 monthly,
+    types 4 and 5 annual, all three with timestep 1; in every case the period ends at hour 23. -/
+theorem C19_timestep_by_frequency (s : TimeRow) (freq : Freq) (ts mps : Nat)
+    (h : freqOf s = .ok (freq, ts, mps)) :
+    ((s.itype ≤ 1 ∧ freq = .steps (60 / s.interval) ∧ ts = 60 / s.interval ∧ 1 ≤ s.interval ∧ s.interval ≤ 60) ∨
+     (s.itype = 2 ∧ freq = .daily ∧ ts = 1) ∨ (s.itype = 3 ∧ freq = .monthly ∧ ts = 1) ∨
+     ((s.itype = 4 ∨ s.itype = 5) ∧ freq = .annual ∧ ts = 1)) ∧
+    endHourOf mps = 23 ∧ endHourOf (60 / ts) = 23 := by
+  unfold freqOf at h
+  split at h
+  · rename_i h1
+    split at h
+    · simp at h
+    · split at h
+      · simp at h
+      · rename_i a b
+        simp only [Except.ok.injEq, Prod.mk.injEq] at h
+        obtain ⟨rfl, rfl, rfl⟩ := h
+        have hk1 : 0 < 60 / s.interval := Nat.div_pos (by omega) (by omega)
+        have hk2 : 60 / s.interval ≤ 60 := Nat.div_le_self _ _
+        have hm1 : 0 < 60 / (60 / s.interval) := Nat.div_pos hk2 hk1
+        have hm2 : 60 / (60 / s.interval) ≤ 60 := Nat.div_le_self _ _
+        refine ⟨Or.inl ⟨h1, rfl, rfl, by omega, by omega⟩, ?_, ?_⟩ <;> unfold endHourOf <;> omega
+  · split at h
+    · rename_i h2
+      simp only [Except.ok.injEq, Prod.mk.injEq] at h
+      obtain ⟨rfl, rfl, rfl⟩ := h
+      exact ⟨Or.inr (Or.inl ⟨h2, rfl, rfl⟩), by decide, by decide⟩
+    · split at h
+      · rename_i h3
+        simp only [Except.ok.injEq, Prod.mk.injEq] at h
+        obtain ⟨rfl, rfl, rfl⟩ := h
+        exact ⟨Or.inr (Or.inr (Or.inl ⟨h3, rfl, rfl⟩)), by decide, by decide⟩
+      · split at h
+        · rename_i h4
+          simp only [Except.ok.injEq, Prod.mk.injEq] at h
+          obtain ⟨rfl, rfl, rfl⟩ := h
+          exact ⟨Or.inr (Or.inr (Or.inr ⟨h4, rfl, rfl⟩)), by decide, by decide⟩
+        · simp at h
+
+theorem buildOne_inv (freq : Freq) (h : Hdr) (v : List α) (c : Coll α) (hc : buildOne freq h v = .ok c) :
+    c.kind = kindOf freq ∧ c.period = h.period ∧ c.values = v ∧ c.dtype = h.dtype ∧ c.unit = h.unit ∧
+      c.datetimes = datetimesOf freq h.period ∧ okPeriod freq h.period v.length := by
+  cases freq with
+  | steps n =>
+    simp only [buildOne] at hc
+    split at hc
+    · simp at hc
+    · split at hc
+      · simp at hc
+      · rename_i a b
+        simp only [Except.ok.injEq] at hc
+        subst hc
+        refine ⟨rfl, rfl, rfl, rfl, rfl, rfl, ?_⟩
+        simp only [okPeriod]
+        omega
+  | daily =>
+    simp only [buildOne] at hc
+    split at hc
+    · simp at hc
+    · rename_i a
+      simp only [Except.ok.injEq] at hc
+      subst hc
+      refine ⟨rfl, rfl, rfl, rfl, rfl, rfl, ?_⟩
+      simp only [okPeriod]
+      omega
+  | monthly =>
+    simp only [buildOne] at hc
+    split at hc
+    · simp at hc
+    · rename_i a
+      simp only [Except.ok.injEq] at hc
+      subst hc
+      refine ⟨rfl, rfl, rfl, rfl, rfl, rfl, ?_⟩
+      simp only [okPeriod]
+      omega
+  | annual => simp [buildOne] at hc
+
+/-- Over the frequency enumeration: every collection `buildColls` returns has the class of the frequency
+    (`steps` → hourly continuous, daily → daily, monthly → monthly), carries the datetimes of that class
+    (none / days of the year / months of its period) and satisfies the class's constructor checks
+    (start hour 0, end hour 23 and `len(values) = len(period)` for continuous data; one value per day /
+    month, at least one, otherwise); annual data never becomes a collection. -/
+theorem C19_class_by_frequency (freq : Freq) (headers : List Hdr) (vals : List (List α)) (cs : List (Coll α))
+    (h : buildColls freq headers vals = .ok cs) :
+    ∀ c ∈ cs, c.kind = kindOf freq ∧ c.datetimes = datetimesOf freq c.period ∧
+      okPeriod freq c.period c.values.length := by
+  intro c hc
+  obtain ⟨hv, _, hb⟩ := mapM_mem _ _ _ h c hc
+  obtain ⟨h1, h2, h3, _, _, h6, h7⟩ := buildOne_inv freq hv.1 hv.2 c hb
+  rw [h2, h3]
+  exact ⟨h1, h6, h7⟩
+
+/-! ### `_extract_all_run_period` -/
+
+/-- Over a `Time` table that is the concatenation `tb` of the environments' rows (every block non-empty,
+    one environment index per block, neighbouring blocks with different indices) – whatever the interval
+    types of the rows – `_extract_all_run_period` returns one run period per environment, built from the
+    environment's first and last row with the given timestep and leap flag. -/
+theorem C19_all_run_periods (monthly : Bool) (ts : Nat) (leap : Bool) (tb : List (List TimeRow))
+    (hne : tb ≠ []) (hts : ts ≠ 0) (h : blockedFrom none tb) :
+    allRunPeriods tb.flatten monthly ts leap = blockPeriods monthly ts leap tb :=
+  allRunPeriods_blocks monthly ts leap tb hne hts h
+
+/-- … and that period is the one `_extract_run_period` gives for the environment's first and last row,
+    **provided** the first row `f` has the interval type and interval of the data (`freqOf f` = the
+    frequency/timestep used, not annual) and the leap flag used is the one of the last row's year.
+    This is the hypothesis “the Time rows of one interval type are used”: in a table that mixes interval
+    types the last row of an environment can be a monthly row (last day of the month) while the data is
+    hourly, and the two differ (`C19_mixed_time_table_counterexample`). -/
+theorem C19_all_run_periods_eq_extract (f l : TimeRow) (freq : Freq) (ts mps : Nat)
+    (hf : freqOf f = .ok (freq, ts, mps)) (hfr : freq ≠ .annual) :
+    extractRunPeriodRows (some f) (some l) =
+      (periodOfRows (freq == .monthly) ts (leapOfYear l.year) f l).map
+        fun p => (some p, freq, f.env != l.env) := by
+  have hend := (C19_timestep_by_frequency f freq ts mps hf).2
+  exact extractRunPeriodRows_eq f l freq ts mps hf hfr (by rw [hend.1, hend.2])
+
+/-! ### Non-vacuity of the end-to-end theorems -/
+
+/-- Non-vacuity of the end-to-end theorems: a daily database with two keys (J and C), two run periods
+    (1–2 Jan, 1 Jul), rows in EnergyPlus order. -/
+def exDB : DB Nat :=
+  ⟨[⟨7, "Zone", "Z1", "E", "Daily", "J"⟩, ⟨9, "Zone", "Z2", "E", "Daily", "C"⟩, ⟨8, "Zone", "Z1", "X", "Daily", "W"⟩],
+   [⟨1, 2017, 1, 1, 1440, 2, 1⟩, ⟨2, 2017, 1, 2, 1440, 2, 1⟩, ⟨3, 2017, 7, 1, 1440, 2, 2⟩],
+   [⟨1, 7, 107⟩, ⟨1, 8, 108⟩, ⟨1, 9, 109⟩, ⟨2, 7, 207⟩, ⟨2, 8, 208⟩, ⟨2, 9, 209⟩, ⟨3, 7, 307⟩, ⟨3, 8, 308⟩, ⟨3, 9, 309⟩]⟩
+
+def exV (t d : Nat) : Nat := 100 * t + d
+
+theorem exData : EPlusData exDB (.single "E") [[1, 2], [3]] exV where
+  hdr_ne := by decide +kernel
+  rows := by rfl
+  sorted := by decide
+  blocks_ne := by decide
+  block_ne := by decide
+
+example : queryAll (· / 2) exDB (.single "E") = .ok (.colls
+    ((([⟨1, 1, 0, 1, 2, 23, 1, false⟩, ⟨7, 1, 0, 7, 1, 23, 1, false⟩] : List Period).zip [[1, 2], [3]]).flatMap
+      fun pb => (headerRows exDB.dict (.single "E")).map
+        (expectedColl (· / 2) (NameQuery.single "E").surface .daily pb.1 pb.2 exV))) := C19_end_to_end (· / 2) exDB (.single "E") [[1, 2], [3]] exV
+    [[⟨1, 2017, 1, 1, 1440, 2, 1⟩, ⟨2, 2017, 1, 2, 1440, 2, 1⟩], [⟨3, 2017, 7, 1, 1440, 2, 2⟩]] 1 3
+    ⟨1, 1, 0, 7, 1, 23, 1, false⟩ .daily [⟨1, 1, 0, 1, 2, 23, 1, false⟩, ⟨7, 1, 0, 7, 1, 23, 1, false⟩]
+    exData (by decide) (by decide) (by decide +kernel) (by decide) (by rfl)
+    ⟨_, _, rfl, by decide, by simp, ⟨_, _, rfl, by decide, by decide, trivial⟩⟩ (by decide) (by decide)
+    (by decide +kernel) (by decide) (by
+      intro pb hpb
+      simp only [List.zip_cons_cons, List.zip_nil_right, List.mem_cons, List.not_mem_nil, or_false] at hpb
+      rcases hpb with rfl | rfl <;> simp only [okPeriod] <;> decide)
+
+/-- The same instance evaluated by the kernel: the J key is converted (here: halved), the C key is not. -/
+example : (match queryAll (· / 2) exDB (.single "E") with
+    | .ok (.colls cs) => cs.map fun c => (c.key, c.unit, c.period.stMonth, c.values, c.datetimes)
+    | _ => []) =
+    [("Z1", "kWh", 1, [53, 103], [1, 2]), ("Z2", "C", 1, [109, 209], [1, 2]),
+     ("Z1", "kWh", 7, [153], [182]), ("Z2", "C", 7, [309], [182])] := by decide +kernel
+
 
 end Sql
